@@ -29,8 +29,10 @@ Definition addrout_eqb (a b : addrout) : bool :=
      - the code panics where the model does not;
      - the code accepts what the model rejects (then "validate = VOk => Must* defined" would not transfer);
      - a helper the model proves defined panics.
-   The code being stricter than the model (error instead of ok), or not panicking where the model does
-   (a repaired defect), is not a failure of the property and is not flagged here (strict mode flags both). *)
+   For the validators whose guards were added by the repairs of C20-1/2/3/6 (Params, MsgUpdateParams, MsgBridgeCall,
+   MsgBridgeCallClaim, the MsgConfirm handler entry, and the two ante functions repaired for C20-4/5) the comparison is EXACT: same class and the model's tag is a
+   prefix of the Go error text — so the removal, weakening or reordering of any of those guards is a mismatch even
+   when it does not (yet) lead to a panic.  Elsewhere the code being stricter than the model is not flagged. *)
 Definition v_mismatch (m : vres) (o : obs) : bool :=
   match m, o with
   | VPanic, _ => false
@@ -38,11 +40,25 @@ Definition v_mismatch (m : vres) (o : obs) : bool :=
   | VErr _, OOk => true
   | _, _ => false
   end.
+Definition v_mismatch_strict (m : vres) (o : obs) : bool :=
+  match m, o with
+  | VOk, OOk => false
+  | VPanic, OPanic => false
+  | VErr t, OErr msg => negb (String.prefix t msg)
+  | _, _ => true
+  end.
+Definition exact_input (i : vinput) : bool :=
+  match i with
+  | I_Params _ | I_MsgUpdateParams _ | I_MsgBridgeCall _ | I_MsgConfirm _ | I_Claim (ClBridgeCall _) => true
+  | I_PubKeyDecorator _ _ | I_MultisigGas _ _ _ _ => true
+  | I_MsgClaim m => match mc_claim m with AnyIs (ClBridgeCall _) => true | _ => false end
+  | _ => false
+  end.
 Definition must_mismatch (model_defined real_defined : bool) : bool := model_defined && negb real_defined.
 
 Definition c_mismatch (c : ccase) : bool :=
   match c with
-  | CV i o => v_mismatch (validate i) o
+  | CV i o => if exact_input i then v_mismatch_strict (validate i) o else v_mismatch (validate i) o
   | CMust_BridgeCall m d => must_mismatch (all_def (must_MsgBridgeCall m)) d
   | CMust_ClaimAddr m d => must_mismatch (all_def (must_BridgeCallClaim_addr m)) d
   | CMust_ClaimAmounts m d => must_mismatch (all_def (must_BridgeCallClaim_amounts m)) d
@@ -53,13 +69,6 @@ Definition c_mismatch (c : ccase) : bool :=
   end.
 
 (* strict mode (VERIF_STRICT=1, used while transcribing): exact class and the model's tag must be a prefix of the error text *)
-Definition v_mismatch_strict (m : vres) (o : obs) : bool :=
-  match m, o with
-  | VOk, OOk => false
-  | VPanic, OPanic => false
-  | VErr t, OErr msg => negb (String.prefix t msg)
-  | _, _ => true
-  end.
 Definition c_mismatch_strict (c : ccase) : bool :=
   match c with
   | CV i o => v_mismatch_strict (validate i) o
